@@ -8,7 +8,7 @@ from gen.util import lib_vs_model, short
 
 NEEDS = dict(cli=True, harness=True, shim=False, release=False)
 RULE = ("domain types: all 326 duplicate-free orderings of subsets of the five standard fields (exhaustive), every sequence "
-        "with one repeated field, a foreign name in every position, each standard field with each of 12 substitute types, "
+        "with one repeated field, a foreign name in every position, foreign names containing the separators of the type string (`name,string version`), each standard field with each of 12 substitute types, "
         "documents without EIP712Domain; every document is otherwise valid (matching domain values) so that the domain "
         "check alone decides; member type grammar: a fixed list of tricky type strings plus generated ones, parse/print image "
         "through the verif-hooks accessor; a case is distinct by its member list / type string")
@@ -70,6 +70,17 @@ def run(ctx):
                     ms = list(sub)
                     ms.insert(pos, foreign)
                     cases.append((ms, "foreign-name"))
+    # foreign names that contain the separators of the encodeType string: one member "name,string version" of type string
+    # renders like the two members name, version — but it is ONE member with a non-standard name
+    for i in range(len(STD) - 1):
+        for j in range(i + 1, len(STD)):
+            (n1, t1), (n2, t2) = STD[i], STD[j]
+            fused = ("%s,%s %s" % (n1, t2, n2), t1)
+            for sub in ([fused], [s_ for s_ in STD[:i]] + [fused], [fused] + [s_ for s_ in STD[j + 1:]]):
+                cases.append((list(sub), "foreign-name/fused-with-separator"))
+    for nm in ("name)", "(name", "name version", "name,", ",name", "EIP712Domain(string name", "string name", "name\u0000", "name "):
+        cases.append(([(nm, "string")], "foreign-name/fused-with-separator"))
+        cases.append(([STD[0], (nm, "string")], "foreign-name/fused-with-separator"))
     for k in range(1, 6):
         for sub in itertools.combinations(STD, k):
             for i in range(k):
@@ -86,8 +97,8 @@ def run(ctx):
             uniq.append((ms, cls))
     cases = uniq
     if not thorough:
-        keep = [c for c in cases if c[1].startswith("ordering")]
-        rest = [c for c in cases if not c[1].startswith("ordering")]
+        keep = [c for c in cases if c[1].startswith("ordering") or c[1].startswith("foreign-name/fused")]
+        rest = [c for c in cases if not (c[1].startswith("ordering") or c[1].startswith("foreign-name/fused"))]
         rng.shuffle(rest)
         cases = keep + rest[:1400]
     # one case in four signs the domain itself (primaryType EIP712Domain, message = domain): the domain check is the same
